@@ -138,6 +138,12 @@ func (s RRSpec) build(objs []dns.RR) dns.RR {
 		return &foreignRR{dns.A{Hdr: dns.RR_Header{Name: s.Owner, Rrtype: dns.TypeA, Class: dns.ClassINET, Ttl: s.TTL}, A: net.IPv4(192, 0, 2, 9).To4()}}
 	case "fakeopt":
 		return &fakeOPT{dns.A{Hdr: dns.RR_Header{Name: ".", Rrtype: dns.TypeOPT, Class: 1232, Ttl: s.TTL}, A: net.IPv4(192, 0, 2, 9).To4()}}
+	case "a16": // an A record holding a 16-byte address that is not IPv4-mapped: the library advances four octets without writing them
+		return &dns.A{Hdr: dns.RR_Header{Name: s.Owner, Rrtype: dns.TypeA, Class: dns.ClassINET, Ttl: s.TTL}, A: net.ParseIP(s.Text)}
+	case "l32v6":
+		return &dns.L32{Hdr: dns.RR_Header{Name: s.Owner, Rrtype: dns.TypeL32, Class: dns.ClassINET, Ttl: s.TTL}, Preference: 7, Locator32: net.ParseIP(s.Text)}
+	case "strayopt": // an OPT-typed Go value whose header says another type: IsEdns0 goes by the header
+		return &dns.OPT{Hdr: dns.RR_Header{Name: ".", Rrtype: dns.TypeNULL, Class: 1232, Ttl: s.TTL}}
 	case "private":
 		return &dns.PrivateRR{Hdr: dns.RR_Header{Name: s.Owner, Rrtype: 65280, Class: dns.ClassINET, Ttl: s.TTL}, Data: &privateRdata{b: []byte(s.Text)}}
 	}
@@ -400,6 +406,8 @@ func GenMsgRecipe(t *rapid.T, hostile bool) *MsgRecipe {
 			spec = RRSpec{Kind: "alias", Alias: rapid.IntRange(0, len(r.Table)-1).Draw(t, "alias")}
 		case hostile && k == 36:
 			spec = RRSpec{Kind: rapid.SampledFrom([]string{"nil", "typednil", "foreign", "fakeopt", "private"}).Draw(t, "hostile"), Owner: "h.example.org.", TTL: 5, Text: "priv"}
+		case k == 38:
+			spec = RRSpec{Kind: rapid.SampledFrom([]string{"a16", "a16", "l32v6", "strayopt"}).Draw(t, "odd"), Owner: GenName(t, "oddowner"), TTL: rapid.SampledFrom([]uint32{60, 0x01000000, 0xffffffff}).Draw(t, "oddttl"), Text: rapid.SampledFrom([]string{"2001:db8::77", "fe80::1", "::"}).Draw(t, "oddaddr")}
 		case hostile && k == 37:
 			spec = RRSpec{Kind: "rawname", Owner: GenName(t, "rawowner"), Text: rapid.SampledFrom([]string{"not-fqdn", "a..b.", "toolong" + strings.Repeat("x", 70) + ".example."}).Draw(t, "rawtarget"), TTL: 60}
 		default:
